@@ -2305,7 +2305,7 @@ def select(condlist, choicelist, default=0):
         *condargs,
         *choiceargs,
         dtype=intermediate_dtype,
-        name="select",
+        token="select",
         default=default,
     )
 
